@@ -10,6 +10,6 @@ b = s.index("## 1. Why contracts reach")
 s = s[:a] + out.strip() + "\n\n" + s[b:]
 m = re.search(r"Totals: (\d+) Verus units, (\d+) Kani complete/modular units, (\d+) bounded", out)
 nv, nc, nb = (int(x) for x in m.groups())
-s = re.sub(r"\(15 properties, about \d+ units: \d+ Verus, \d+ Kani complete/modular, \d+ [^)]*\)", "(15 properties, about %d units: %d Verus, %d Kani complete/modular, %d bounded)" % (nv + nc + nb, nv, nc, nb), s)
+s = re.sub(r"\(1[56] properties, about \d+ units: \d+ Verus, \d+ Kani complete/modular, \d+ [^)]*\)", "(16 properties, about %d units: %d Verus, %d Kani complete/modular, %d bounded)" % (nv + nc + nb, nv, nc, nb), s)
 open(p, "w").write(s)
 print("DESIGN.md refreshed:", nv, nc, nb)
